@@ -970,7 +970,7 @@ func (cs *caseState) backlog() int {
 	return t
 }
 
-const hangTimeout = 4 * time.Second
+const hangTimeout = 30 * time.Second
 const spinLimit = 200000
 
 func (cs *caseState) finish() {
